@@ -27,14 +27,18 @@ func Cps(b []byte) []rune {
 	return out
 }
 
-// InModelDomain: the Coq lexer model treats only ASCII digits as digits (Go: unicode.IsDigit).
-func InModelDomain(b []byte) bool {
+// UniDigits lists the distinct non-ASCII runes of the text that unicode.IsDigit accepts: the
+// scanner's isNumber is unicode.IsDigit, the Coq lexer model takes this set as a parameter.
+func UniDigits(b []byte) []rune {
+	var out []rune
+	seen := map[rune]bool{}
 	for _, r := range Cps(b) {
-		if r >= 0x80 && unicode.IsDigit(r) {
-			return false
+		if r >= 0x80 && unicode.IsDigit(r) && !seen[r] {
+			seen[r] = true
+			out = append(out, r)
 		}
 	}
-	return true
+	return out
 }
 
 // Str renders a string as "s<n> cp cp ..." (code points as the scanner would read them).
